@@ -52,6 +52,12 @@ class Ctx:
         self.unops = {}       # (ast op class name, operand type) -> (template with {x}, result type, monad)
         self.cmpops = {}      # (ast op class name, left type, right type) -> template with {l} {r} (a bool)
         self.truth = {}       # type -> template with {x}: truthiness of a value of that type
+        self.kwmethods = {}   # (method name, type of the receiver) -> (coq name, [parameter names], {name: default}, [types], result type, monad)
+                              #   x.m(a, k=b) -> coq x a b (positional and keyword arguments, defaults filled in)
+        self.kwtemplates = {} # (method name, receiver type, sorted keyword names) -> (template with {self} and {<keyword>}, {keyword: type},
+                              #   result type, monad): keyword-only calls such as dt.replace(fold=1) named as a model primitive
+        self.conservative_exit = False   # True: every `if` whose branches contain a call or an operator is translated with the
+                                         # continuation duplicated into both branches (always valid; needed when operators may raise)
         self.kwfuncs = {}     # callable name -> (coq name, [parameter names], {name: default coq expr}, [types], result type, monad)
         self.list_fragment = False  # True: lists of ints (Lib/PyList.v): list displays, len, list(x), l[a:b], truthiness of a list,
                                     # `a, b = <list>` (ValueError unless 2 long), in-place `l[i] op= e` / `l[i][j] op= e` on a FRESH local
@@ -360,6 +366,20 @@ class FunTr:
             return f"(Z.b2z {s})"
         self.fail(node, f"expected integer, got {t}")
 
+    def coerce(self, s, t, want, node):
+        """s : t as a value of type want (ints/bools, T -> T | None, None -> T | None)"""
+        if want == Z:
+            return self.toZ(s, t, node)
+        if t == want:
+            return s
+        if is_opt(want) and t == want[1]:
+            return f"(Some {s})"
+        if is_opt(want) and t == "none":
+            return "None"
+        if is_opt(want) and want[1] == Z and t == B:
+            return f"(Some (Z.b2z {s}))"
+        self.fail(node, f"argument of type {t}, want {want}")
+
     def need(self, t, want, node):
         if t != want:
             self.fail(node, f"expected {want}, got {t}")
@@ -382,17 +402,47 @@ class FunTr:
             for p_, ty in zip(params, types):
                 if p_ in given:
                     s_, t_ = given[p_]
-                    if ty == Z:
-                        s_ = self.toZ(s_, t_, e)
-                    elif t_ != ty:
-                        self.fail(e, f"argument {p_} has type {t_}, want {ty}")
-                    conv.append(s_)
+                    conv.append(self.coerce(s_, t_, ty, e))
                 elif p_ in defaults:
                     conv.append(defaults[p_])
                 else:
                     self.fail(e, f"missing argument {p_}")
             code = f"({coq} " + " ".join(conv) + ")"
             return self.hoist(code, rett, e) if monad == "result" else (code, rett)
+        if c.obj_fragment and isinstance(f, ast.Attribute) and (c.kwmethods or c.kwtemplates) \
+                and any(k[0] == f.attr for k in list(c.kwmethods) + list(c.kwtemplates)):
+            base, bt = self.expr(f.value)
+            tkey = (f.attr, bt, tuple(sorted(k.arg or "" for k in e.keywords)))
+            if not e.args and tkey in c.kwtemplates:
+                tmpl, ktypes, rett, monad = c.kwtemplates[tkey]
+                vals = {"self": base}
+                for kw in e.keywords:
+                    s_, t_ = self.expr(kw.value)
+                    vals[kw.arg] = self.coerce(s_, t_, ktypes[kw.arg], e)
+                code = "(" + tmpl.format(**vals) + ")"
+                return self.hoist(code, rett, e) if monad == "result" else (code, rett)
+            if (f.attr, bt) in c.kwmethods:
+                coq, params, defaults, types, rett, monad = c.kwmethods[(f.attr, bt)]
+                given = {}
+                if len(e.args) > len(params):
+                    self.fail(e, "too many positional arguments")
+                for p_, a_ in zip(params, e.args):
+                    given[p_] = self.expr(a_)
+                for kw in e.keywords:
+                    if kw.arg is None or kw.arg not in params or kw.arg in given:
+                        self.fail(e, "keyword argument")
+                    given[kw.arg] = self.expr(kw.value)
+                conv = [base]
+                for p_, ty in zip(params, types):
+                    if p_ in given:
+                        conv.append(self.coerce(given[p_][0], given[p_][1], ty, e))
+                    elif p_ in defaults:
+                        conv.append(defaults[p_])
+                    else:
+                        self.fail(e, f"missing argument {p_}")
+                code = f"({coq} " + " ".join(conv) + ")"
+                return self.hoist(code, rett, e) if monad == "result" else (code, rett)
+            self.fail(e, f"method {f.attr} on a receiver of type {bt} with these arguments")
         if e.keywords:
             self.fail(e, "keyword arguments")
         if isinstance(f, ast.Name):
@@ -535,6 +585,9 @@ class FunTr:
         return False
 
     def has_exit(self, stmts):
+        if self.ctx.conservative_exit and any(isinstance(n, (ast.Call, ast.BinOp, ast.UnaryOp, ast.AugAssign))
+                                              for s in stmts for n in ast.walk(s)):
+            return True
         return any(isinstance(n, (ast.Return, ast.Raise, ast.Break, ast.Assert)) or self.raising_call(n) or self.list_leaves(n)
                    for s in stmts for n in ast.walk(s))
 
@@ -754,6 +807,21 @@ class FunTr:
             self.expr(s.value)
             pend = self.take()
             return self.wrap(pend, self.block(rest, k))
+        if isinstance(s, ast.If) and self.ctx.obj_fragment and not s.orelse and isinstance(s.test, ast.Compare) \
+                and len(s.test.ops) == 1 and isinstance(s.test.ops[0], ast.IsNot) and isinstance(s.test.left, ast.Name) \
+                and isinstance(s.test.comparators[0], ast.Constant) and s.test.comparators[0].value is None \
+                and is_opt(self.env.get(s.test.left.id)) and s.test.left.id not in self.assigned(s.body):
+            # if x is not None: <body>   -> inside the body (and in the continuation of that branch) x is known not to be None
+            x = s.test.left.id
+            env0 = dict(self.env)
+            kk = (lambda: self.block(rest, k)) if (rest or k) else None
+            none_branch = kk() if kk else None
+            if none_branch is None:
+                self.fail(s, "a path falls off the end")
+            self.env = dict(env0)
+            self.env[x] = env0[x][1]
+            some_branch = self.block(s.body, kk if not self.terminates(s.body) else None)
+            return f"match {self.v(x)} with\n  | None => (\n  {none_branch})\n  | Some {self.v(x)} => (\n  {some_branch})\n  end"
         if isinstance(s, ast.If) and self.ctx.obj_fragment and not s.orelse:
             names = self.none_tests(s.test)
             if names and len(s.body) == 1 and isinstance(s.body[0], ast.Assign) and len(names) == 1 \
